@@ -54,7 +54,7 @@ FUNC_CHECKS = {
     ],
     'scikit_tt/data_driven/transform.py': [
         (r'^(basis_decomposition|coordinate_major|function_major|gram|hocur|__hocur.*)$', ['C15']),
-        (r'.*', ['C14']),
+        (r'.*', ['C14', 'C15']),
     ],
 }
 
